@@ -30,6 +30,7 @@ type c17World struct {
 	rig      *httpRig
 	g1, g2   string
 	sub      string
+	legacy   string   // a group whose definition is in the legacy format
 	secrets  []string // strings that must never appear in any response
 	tokAdm1  string   // admin token scoped to g1
 	tokAdm2  string   // admin token scoped to g2
@@ -89,6 +90,21 @@ func newC17World() *c17World {
 	rig.writeGroup(w.g1, c17Desc(tag+"a", &w.secrets))
 	rig.writeGroup(w.g2, c17Desc(tag+"b", &w.secrets))
 	rig.writeGroup(w.sub, c17Desc(tag+"s", &w.secrets))
+	// a definition in the format of older versions (lists of operators, presenters and others, each entry with its password),
+	// as old installations still have them: with the duplicates such files typically contain (an operator listed again as
+	// presenter, two password-only fallback entries)
+	w.legacy = "c17-" + tag + "-l"
+	ls := func(n string) string {
+		s := n + "-MARKSECRET" + tag
+		w.secrets = append(w.secrets, s)
+		return s
+	}
+	rig.writeGroup(w.legacy, map[string]any{
+		"description": "legacy " + tag,
+		"op":          []any{map[string]any{"username": "lop", "password": ls("lop")}},
+		"presenter":   []any{map[string]any{"username": "lop", "password": ls("lopagain")}, map[string]any{"username": "lpres", "password": ls("lpres")}},
+		"other":       []any{map[string]any{"password": ls("lfallback")}, map[string]any{"password": ls("lfallback2")}, map[string]any{"username": "lpres", "password": ls("lpresagain")}},
+	})
 	mk := func(name, g string, sub bool, perms []string, exp time.Duration) string {
 		e := time.Now().Add(exp)
 		tu := "tokenuser" // a bearer-only request has no other username
@@ -112,7 +128,7 @@ func (w *c17World) hold() {
 	if !w.held {
 		return
 	}
-	for _, g := range []string{w.g1, w.g2, w.sub} {
+	for _, g := range []string{w.g1, w.g2, w.sub, w.legacy} {
 		if group.Get(g) == nil {
 			if _, err := os.Stat(filepath.Join(w.rig.groups, filepath.FromSlash(g)+".json")); err == nil {
 				group.Add(g, nil)
@@ -122,10 +138,10 @@ func (w *c17World) hold() {
 }
 
 func (w *c17World) cleanup() {
-	for _, g := range []string{w.sub, w.g1, w.g2} {
+	for _, g := range []string{w.sub, w.g1, w.g2, w.legacy} {
 		group.Delete(g)
 	}
-	for _, g := range []string{w.sub, w.g1, w.g2} {
+	for _, g := range []string{w.sub, w.g1, w.g2, w.legacy} {
 		os.Remove(filepath.Join(w.rig.groups, filepath.FromSlash(g)+".json"))
 	}
 	os.Remove(filepath.Join(w.rig.groups, filepath.FromSlash(w.g1)))
@@ -152,7 +168,7 @@ func (w *c17World) creds() []c17Cred {
 	}
 	t1 := tagOf(w.g1) + "a"
 	t2 := tagOf(w.g2) + "b"
-	both := map[string]bool{w.g1: true, w.g2: true, w.sub: true}
+	both := map[string]bool{w.g1: true, w.g2: true, w.sub: true, w.legacy: true}
 	return []c17Cred{
 		{name: "none"},
 		{name: "malformed-basic", hdr: "Basic !!!notbase64"},
@@ -233,7 +249,7 @@ func TestVerif_C17_AuthMatrix(t *testing.T) {
 		nreq := rapid.IntRange(4, 20).Draw(t, "nreq")
 		for i := 0; i < nreq; i++ {
 			w.hold()
-			g := rapid.SampledFrom([]string{w.g1, w.g1, w.g2, w.sub}).Draw(t, "group")
+			g := rapid.SampledFrom([]string{w.g1, w.g1, w.g2, w.sub, w.legacy}).Draw(t, "group")
 			routes := w.routes(g)
 			rt := routes[rapid.IntRange(0, len(routes)-1).Draw(t, "route")]
 			method := rapid.SampledFrom([]string{"GET", "GET", "HEAD", "PUT", "PUT", "POST", "DELETE", "DELETE", "OPTIONS", "PATCH", "BOGUS"}).Draw(t, "method")
